@@ -57,7 +57,8 @@ def generate(rng, tier):
                 for t in range(n):
                     data[c][t][0] = 7
             style += "+const"
-        cases.append({"op": "split", "ty": ty, "e": e, "data": data, "style": style})
+        cases.append({"op": "split", "ty": ty, "e": e, "data": data, "style": style,
+                      "layout": rng.choice(["std", "std", "perm", "fortran"])})
     return cases
 
 
@@ -156,6 +157,14 @@ def oracle(case, out):
     m, n, p = len(data), len(data[0]), len(data[0][0])
     h = n // 2
     sc = Fraction(2) ** e
+    # run summary = true minimum / maximum of the per-parameter values (when all are finite), whatever the memory layout
+    for name, vals in (("rhat", out["rhat"]), ("ess", out["ess"])):
+        fv = [C.f32_bits_to_float(b) for b in vals]
+        if all(math.isfinite(v) for v in fv):
+            summ = out["rs_" + name]
+            if C.f32_bits_to_float(summ["max"]) != max(fv) or C.f32_bits_to_float(summ["min"]) != min(fv):
+                return ("run summary of %s (layout %s): min/max reported (%r, %r) but the per-parameter values have (%r, %r)" % (
+                    name, case.get("layout", "std"), C.f32_bits_to_float(summ["min"]), C.f32_bits_to_float(summ["max"]), min(fv), max(fv)))
     for k in range(p):
         halves = []
         for c in range(m):
